@@ -64,7 +64,7 @@ def _install_fdd(case):
     return ss, alg, freq
 
 
-SMALL = {"rows": 4, "cols": 5, "nch": 2, "nmodes": 2, "pert": 1e-3, "pnan": 0.25, "pmiss": 0.0, "dup": False, "complex": False,
+SMALL = {"rows": 4, "cols": 5, "nch": 2, "nmodes": 2, "pert": 0.0, "pnan": 0.25, "pmiss": 0.0, "dup": False, "complex": False,
          "cluster": False, "empty_col": False, "cov": False, "fscale": 1.0, "seed": 3}
 
 
@@ -108,6 +108,12 @@ def _play(j, dlg, kind, actions, Fn, freq, real_events):
         x, y = np.float64(a["x"]), np.float64(a["y"])
         button = {"select": 1, "deselect_nearest": 2, "deselect_one": 3}[a["act"]]
         before = list(model)
+        if a.get("mid") is not None and len(before) >= 2:
+            # aim between two selected entries: 'mid' = [pair index, offset from the midpoint as a fraction of the gap]
+            fr = sorted(p[0] for p in before)
+            i_ = int(a["mid"][0]) % (len(fr) - 1)
+            if fr[i_ + 1] > fr[i_]:
+                x = np.float64(0.5 * (fr[i_] + fr[i_ + 1]) + a["mid"][1] * (fr[i_ + 1] - fr[i_]))
         if real_events:
             # keep the click inside the axes (outside, matplotlib reports no data coordinates)
             dlg.fig.canvas.draw()
@@ -241,19 +247,21 @@ def judge_dialog(case):
 # ---------------------------------------------------------------------------
 def _alphabet(kind):
     if kind == "FDD":
+        # nf = 65 lines over 0..25 Hz (spacing 0.390625): lines 8, 29, 18 and 51
         sel = [(3.1, -5.0), (11.3, -8.0), (7.2, -3.0), (19.9, -9.0)]
     else:
         t = _table(SMALL)
         Fn = t["Fn"]
         # positions aimed at (order, frequency) cells, deliberately not in ascending frequency order
-        sel = []
-        for o, frac in ((3, 0.8), (1, 0.2), (4, 0.5), (2, 0.95)):
-            col = Fn[:, o][np.isfinite(Fn[:, o])]
-            sel.append((float(col.min() + frac * (col.max() - col.min())), o + 0.3 * (frac - 0.5)))
+        # the two physical modes keep bit-identical frequencies over the orders (pert = 0): picks aim at
+        # mode 1 @ order 3, mode 0 @ order 1, mode 1 @ order 4 (same frequency, other order), mode 0 @ order 2
+        f0 = sorted(float(v) for v in t["f0"])
+        sel = [(f0[1] * 1.01, 3.2), (f0[0] * 0.99, 0.9), (f0[1] * 0.995, 4.1), (f0[0] * 1.02, 2.2)]
     sym = [{"act": "select", "x": x, "y": y, "shift": True} for x, y in sel]
     sym.append({"act": "deselect_one", "x": 5.0, "y": 1.0, "shift": True})
     sym.append({"act": "deselect_nearest", "x": 2.0, "y": 1.0, "shift": True})
-    sym.append({"act": "deselect_nearest", "x": 14.0, "y": 2.0, "shift": True})
+    # just right of the midpoint between the first two selected entries (nearer the upper one)
+    sym.append({"act": "deselect_nearest", "x": 14.0, "y": 2.0, "shift": True, "mid": [0, 0.04]})
     sym.append({"act": "select", "x": sel[0][0], "y": sel[0][1], "shift": False})
     sym.append({"act": "deselect_one", "x": 5.0, "y": 1.0, "shift": False})
     sym.append({"act": "deselect_nearest", "x": 2.0, "y": 1.0, "shift": False})
@@ -306,7 +314,10 @@ def machine_case(draw, kind):
             o = draw(st.sampled_from(cols))
             y = o + draw(st.floats(-0.45, 0.45))
             y = min(max(y, 0.05), max(cols) + 0.45)
-        acts.append({"act": a, "x": x, "y": y, "shift": draw(st.integers(0, 5)) != 0})
+        act = {"act": a, "x": x, "y": y, "shift": draw(st.integers(0, 5)) != 0}
+        if a == "deselect_nearest" and draw(st.booleans()):
+            act["mid"] = [draw(st.integers(0, 3)), draw(st.sampled_from([0.02, -0.02, 0.2, -0.2, 0.45, -0.45]))]
+        acts.append(act)
     c["actions"] = acts
     return c
 
